@@ -47,7 +47,7 @@ import warnings
 from vf import core
 
 ID = 'C16'
-N = {'quick': 3600, 'thorough': 100000}
+N = {'quick': 3000, 'thorough': 100000}
 BUDGET = {'quick': 800, 'thorough': 6000}       # seconds per shard; a slow tree is inconclusive, not a hang
 NT_RULE = ('case = one network (random: 2-12 species over 1-4 elements with generated NASA-7 '
            'coefficients, G/RT span <= 60 at each T, full-rank or rank-deficient formula matrix; or '
